@@ -137,7 +137,11 @@ func (pConn *PFCPConn) startHeartBeatMonitor() {
 func (node *PFCPNode) NewPFCPConn(lAddr, rAddr string, buf []byte) *PFCPConn {
 	conn, err := reuse.Dial("udp", lAddr, rAddr)
 	if err != nil {
+		// No socket for this peer (e.g. the process is out of file descriptors): there is
+		// no connection to serve. Going on dereferenced the nil connection and took the
+		// whole agent down with one datagram from a new peer.
 		logger.PfcpLog.Errorln("dial socket failed", err)
+		return nil
 	}
 
 	ts := recoveryTS{
